@@ -214,13 +214,14 @@ def ebr_strict_validate(trace, threads, timeout_s=3000):
     return {"accepted": False, "matched": int(m.group(2)), "lines": int(m.group(3)), "scenario": int(m.group(4)), "states": states, "strict_lines": strict_lines}
 
 
-def queue_strict_validate(trace, threads, timeout_s=3000):
-    """Step-relation validation of a queue trace (TraceQStrict.tla over MSQueue.tla)."""
+def queue_strict_validate(trace, threads, timeout_s=3000, module="TraceQStrict"):
+    """Step-relation validation of a queue trace (TraceQStrict.tla over MSQueue.tla) or of a list trace
+    (module="TraceLStrict", over RegList.tla)."""
     meta = os.path.join(WORK, "tlc", "qst_%d_%s" % (os.getpid(), hashlib.md5(trace.encode()).hexdigest()[:8]))
     shutil.rmtree(meta, ignore_errors=True)
     os.makedirs(meta, exist_ok=True)
     cmd = ["timeout", str(timeout_s), "tlc", "-workers", "1", "-metadir", meta, "-cleanup", "-noGenerateSpecTE",
-           "-config", "TraceQStrict_t%d.cfg" % threads, "TraceQStrict.tla"]
+           "-config", "%s_t%d.cfg" % (module, threads), module + ".tla"]
     rc, out = sh(cmd, cwd=SPECS, env={"TRACE": trace, "JAVA_TOOL_OPTIONS": "-Xss1g -Xmx6g -Dtlc2.tool.queue.IStateQueue=StateDeque"})
     shutil.rmtree(meta, ignore_errors=True)
     m = STRICT_RE.search(out)
